@@ -1,0 +1,326 @@
+//go:build verif
+
+// Machine-checked contracts for package swap. This file is comment-only: it
+// is read by /verif/govc, which generates verification conditions from the
+// go/ssa form of the functions named here and discharges them with z3/cvc5.
+// Syntax: /verif/DESIGN.md §2.5. With the build tag off the file does not
+// exist for the compiler.
+
+package swap
+
+// ---------------------------------------------------------------------------
+// ghost state (environment facts recorded by interface contracts)
+// ---------------------------------------------------------------------------
+
+//@ ghost tip uint32
+//@ ghost tipKnown bool
+// what the last successful ValidateTx call established (C01)
+//@ ghost validatedOK bool
+//@ ghost valHex string
+//@ ghost valAmount uint64
+//@ ghost valHash string
+//@ ghost valTaker string
+//@ ghost valMaker string
+//@ ghost valCSV uint32
+// durable mirrors of the persisted record (re-assigned where UpdateData is called)
+//@ ghost dSet bool
+//@ ghost dHeight uint32
+//@ durable dSet swap.StartingBlockHeightSet
+//@ durable dHeight swap.StartingBlockHeight
+// own fee estimate and channel balance as reported by the node (C12)
+//@ ghost feeEstimate uint64
+//@ ghost spendable uint64
+
+// ---------------------------------------------------------------------------
+// timelock policy (C02 CSV values, C04, C05, C08)
+// ---------------------------------------------------------------------------
+
+//@ func (*SwapData).getTimelockPolicy
+//@ property C02 C04 C05 C08
+//@ requires s != nil
+//@ ensures liquid7: (result1 == nil && s.GetChain() == l_btc_chain && s.GetProtocolVersion() == 7) ==> (result0.CSV == 10080 && result0.PaymentWindow == 60 && result0.InvoiceFinalCLTV == 29 && result0.MaxTotalCLTVDelta == 32 && result0.AllowNewClaimPayment)
+//@ ensures liquid6: (result1 == nil && s.GetChain() == l_btc_chain && s.GetProtocolVersion() != 7) ==> (s.GetProtocolVersion() == 6 && result0.CSV == 60 && result0.PaymentWindow == 30 && result0.InvoiceFinalCLTV == 29 && !result0.AllowNewClaimPayment)
+//@ ensures bitcoin: (result1 == nil && s.GetChain() == btc_chain) ==> (result0.CSV == 1008 && result0.PaymentWindow == 504 && result0.InvoiceFinalCLTV == 503 && result0.MaxTotalCLTVDelta == 0 && result0.AllowNewClaimPayment && (s.GetProtocolVersion() == 6 || s.GetProtocolVersion() == 7))
+//@ ensures chains: result1 == nil ==> (s.GetChain() == btc_chain || s.GetChain() == l_btc_chain)
+//@ ensures errzero: result1 != nil ==> (result0.CSV == 0 && result0.PaymentWindow == 0 && !result0.AllowNewClaimPayment)
+//@ ensures errs: result1 == nil <==> ((s.GetChain() == btc_chain || s.GetChain() == l_btc_chain) && (s.GetProtocolVersion() == 6 || s.GetProtocolVersion() == 7))
+//@ assigns nothing
+
+//@ func ValidateTotalCLTVDelta
+//@ property C04
+//@ ensures limit: result == nil <==> (limit == 0 || required <= limit)
+
+//@ func checkPaymentWindow
+//@ property C04 C13
+//@ requires swap != nil
+//@ ensures window: result == nil <==> (swap.StartingBlockHeightSet && mi(currentHeight) >= mi(swap.StartingBlockHeight) && mi(currentHeight) < mi(swap.StartingBlockHeight) + mi(policy.PaymentWindow))
+//@ assigns nothing
+
+//@ func validateClaimInvoice
+//@ property C01 C04
+//@ ensures cltv: result == nil ==> (finalCLTVDelta >= 0 && mi(finalCLTVDelta) <= mi(policy.InvoiceFinalCLTV))
+//@ ensures amount_machine: result == nil ==> paymentAmountMsat == claimAmountSat*1000
+
+// ---------------------------------------------------------------------------
+// environment contracts (assumed at the interface, proved at every call site)
+// ---------------------------------------------------------------------------
+
+//@ interface TxWatcher.GetBlockHeight
+//@ ensures result1 == nil ==> (ghost.tipKnown && ghost.tip == result0)
+//@ assigns ghost.tip, ghost.tipKnown
+
+//@ interface LightningClient.DecodePayreq
+//@ ensures result3 == nil ==> (result0 == uf("payreqHash", "", payreq) && result1 == uf("payreqMsat", uint64(0), payreq) && result2 == uf("payreqCltv", int64(0), payreq))
+//@ ensures result3 == nil ==> result0 != ""
+//@ assigns nothing
+
+//@ interface Validator.ValidateTx
+//@ ensures (result0 && result1 == nil) ==> (ghost.validatedOK && ghost.valHex == txHex && ghost.valAmount == swapParams.Amount && ghost.valHash == swapParams.ClaimPaymentHash && ghost.valTaker == swapParams.TakerPubkey && ghost.valMaker == swapParams.MakerPubkey && ghost.valCSV == swapParams.CSV)
+//@ assigns ghost.validatedOK, ghost.valHex, ghost.valAmount, ghost.valHash, ghost.valTaker, ghost.valMaker, ghost.valCSV
+
+// wiring assumption: the Bitcoin validator is onchain.BitcoinOnChain, whose
+// GetCSVHeight is proved to return 1008 (package onchain)
+//@ interface Validator.GetCSVHeight
+//@ ensures recv == services.bitcoinValidator ==> result == 1008
+//@ assigns nothing
+
+//@ interface LightningClient.RebalancePayment
+//@ requires @C04 liquid-window: swap.GetChain() == l_btc_chain ==> (swap.GetProtocolVersion() == 7 && swap.StartingBlockHeightSet && ghost.tipKnown && mi(ghost.tip) >= mi(swap.StartingBlockHeight) && mi(ghost.tip) < mi(swap.StartingBlockHeight) + 60)
+//@ requires @C04 liquid-limit: swap.GetChain() == l_btc_chain ==> maxTotalCLTVDelta == 32
+//@ requires @C04 liquid-cltv: swap.GetChain() == l_btc_chain ==> (payreq == swap.OpeningTxBroadcasted.Payreq && uf("payreqCltv", int64(0), payreq) >= 0 && uf("payreqCltv", int64(0), payreq) <= 29)
+//@ requires @C01 invoice: payreq == swap.OpeningTxBroadcasted.Payreq
+//@ requires @C01 validated: ghost.validatedOK && ghost.valHex == swap.OpeningTxHex && ghost.valAmount == swap.GetOpeningTXAmount() && ghost.valTaker == swap.GetTakerPubkey() && ghost.valMaker == swap.GetMakerPubkey()
+//@ requires @C01 hash: ghost.valHash == uf("payreqHash", "", payreq) && ghost.valHash != ""
+//@ requires @C01 csv: (swap.GetChain() == btc_chain ==> ghost.valCSV == 1008) && (swap.GetChain() == l_btc_chain ==> ghost.valCSV == 10080)
+//@ requires @C01,C12 amount: uf("payreqMsat", uint64(0), payreq) == swap.GetClaimAmount()*1000
+//@ requires @C12 amount-exact: mi(uf("payreqMsat", uint64(0), payreq)) == (mi(swap.GetAmount()) + ite(swap.SwapOutRequest != nil, mi(swap.SwapOutAgreement.Premium), mi(0))) * 1000
+//@ requires @C12 premium-limit: swap.SwapOutRequest != nil ==> swap.SwapOutAgreement.Premium <= swap.SwapOutRequest.PremiumLimit
+//@ requires @C24 channel: channel == swap.GetScid()
+//@ requires @C05 bitcoin-window: swap.GetChain() == btc_chain ==> (swap.StartingBlockHeight != 0 && ghost.tipKnown && mi(ghost.tip) - mi(swap.StartingBlockHeight) <= 504 && uf("payreqCltv", int64(0), payreq) <= 504 && maxTotalCLTVDelta == 0)
+//@ requires @C13 anchored: swap.GetChain() == l_btc_chain ==> swap.StartingBlockHeightSet
+//@ assigns nothing
+
+// ---------------------------------------------------------------------------
+// taker actions
+// ---------------------------------------------------------------------------
+
+// The taker actions are verified per state (FSM layer below): their obligations
+// are the call-site preconditions of the environment contracts and the state
+// invariants, generated under the entry invariant of each state that runs them.
+
+// ---------------------------------------------------------------------------
+// FSM layer: rules over the state tables (evaluated from the constructors)
+// ---------------------------------------------------------------------------
+
+// C06: once the claim payment has succeeded the taker never reveals its key
+// and keeps claiming. Paid is entered only by the pay action succeeding, is
+// closed under every accepted event (negotiation timeouts are never cancelled,
+// so Event_OnTimeout can arrive in any state), and contains no key-revealing action.
+//@ table getSwapOutSenderStates set Paid State_SwapOutSender_ClaimSwap State_ClaimedPreimage
+//@ table getSwapOutSenderStates closed @C06 Paid
+//@ table getSwapOutSenderStates noaction @C06 Paid TakerSendPrivkeyAction
+//@ table getSwapOutSenderStates entry @C06 Paid State_SwapOutSender_ValidateTxAndPayClaimInvoice:Event_ActionSucceeded
+//@ table getSwapOutSenderStates edge @C06 State_SwapOutSender_ClaimSwap Event_OnRetry State_SwapOutSender_ClaimSwap
+//@ table getSwapOutSenderStates edge @C06 State_SwapOutSender_ClaimSwap Event_ActionSucceeded State_ClaimedPreimage
+//@ table getSwapInReceiverStates set Paid State_SwapInReceiver_ClaimSwap State_ClaimedPreimage
+//@ table getSwapInReceiverStates closed @C06 Paid
+//@ table getSwapInReceiverStates noaction @C06 Paid TakerSendPrivkeyAction
+//@ table getSwapInReceiverStates entry @C06 Paid State_SwapInReceiver_ValidateTxAndPayClaimInvoice:Event_ActionSucceeded
+//@ table getSwapInReceiverStates edge @C06 State_SwapInReceiver_ClaimSwap Event_OnRetry State_SwapInReceiver_ClaimSwap
+//@ table getSwapInReceiverStates edge @C06 State_SwapInReceiver_ClaimSwap Event_ActionSucceeded State_ClaimedPreimage
+
+// C07: once the opening transaction exists the maker stays inside Opened (never
+// SwapCanceled), finishes only by payment or by spending the output back, and
+// both waiting states react to CSV maturity; the refund state retries.
+//@ table getSwapInSenderStates set Opened State_SwapInSender_SendTxBroadcastedMessage State_SwapInSender_AwaitClaimPayment State_WaitCsv State_SwapInSender_ClaimSwapCsv State_SwapInSender_ClaimSwapCoop State_ClaimedPreimage State_ClaimedCsv State_ClaimedCoop
+//@ table getSwapInSenderStates closed @C07,C22 Opened
+//@ table getSwapInSenderStates entry @C07,C15 Opened State_SwapInSender_BroadcastOpeningTx:Event_ActionSucceeded
+//@ table getSwapInSenderStates onlyin @C07,C15 CreateAndBroadcastOpeningTransaction BroadcastState
+//@ table getSwapInSenderStates set BroadcastState State_SwapInSender_BroadcastOpeningTx
+//@ table getSwapInSenderStates set PaidOut State_ClaimedPreimage
+//@ table getSwapInSenderStates entry @C07 PaidOut State_SwapInSender_AwaitClaimPayment:Event_OnClaimInvoicePaid
+//@ table getSwapInSenderStates set RefundedCsv State_ClaimedCsv
+//@ table getSwapInSenderStates entry @C07,C26 RefundedCsv State_SwapInSender_ClaimSwapCsv:Event_ActionSucceeded
+//@ table getSwapInSenderStates set RefundedCoop State_ClaimedCoop
+//@ table getSwapInSenderStates entry @C07 RefundedCoop State_SwapInSender_ClaimSwapCoop:Event_ActionSucceeded
+//@ table getSwapInSenderStates edge @C07,C18 State_SwapInSender_AwaitClaimPayment Event_OnCsvPassed State_SwapInSender_ClaimSwapCsv
+//@ table getSwapInSenderStates edge @C07,C18 State_WaitCsv Event_OnCsvPassed State_SwapInSender_ClaimSwapCsv
+//@ table getSwapInSenderStates edge @C07 State_SwapInSender_ClaimSwapCsv Event_OnRetry State_SwapInSender_ClaimSwapCsv
+//@ table getSwapInSenderStates edge @C07,C18 State_SwapInSender_ClaimSwapCoop Event_ActionFailed State_WaitCsv
+//@ table getSwapInSenderStates edge @C07,C18 State_SwapInSender_AwaitClaimPayment Event_OnCancelReceived State_WaitCsv
+//@ table getSwapInSenderStates action @C07 State_SwapInSender_ClaimSwapCsv ClaimSwapTransactionWithCsv
+//@ table getSwapInSenderStates action @C07 State_WaitCsv AwaitCsvAction
+//@ table getSwapInSenderStates action @C07 State_SwapInSender_AwaitClaimPayment AwaitPaymentOrCsvAction
+
+//@ table getSwapOutReceiverStates set Opened State_SwapOutReceiver_SendTxBroadcastedMessage State_SwapOutReceiver_AwaitClaimInvoicePayment State_WaitCsv State_SwapOutReceiver_ClaimSwapCsv State_SwapOutReceiver_ClaimSwapCoop State_ClaimedPreimage State_ClaimedCsv State_ClaimedCoop
+//@ table getSwapOutReceiverStates closed @C07,C22 Opened
+//@ table getSwapOutReceiverStates entry @C07,C15 Opened State_SwapOutReceiver_BroadcastOpeningTx:Event_ActionSucceeded
+//@ table getSwapOutReceiverStates set BroadcastState State_SwapOutReceiver_BroadcastOpeningTx
+//@ table getSwapOutReceiverStates onlyin @C07,C15 CreateAndBroadcastOpeningTransaction BroadcastState
+//@ table getSwapOutReceiverStates set PaidOut State_ClaimedPreimage
+//@ table getSwapOutReceiverStates entry @C07 PaidOut State_SwapOutReceiver_AwaitClaimInvoicePayment:Event_OnClaimInvoicePaid
+//@ table getSwapOutReceiverStates set RefundedCsv State_ClaimedCsv
+//@ table getSwapOutReceiverStates entry @C07,C26 RefundedCsv State_SwapOutReceiver_ClaimSwapCsv:Event_ActionSucceeded
+//@ table getSwapOutReceiverStates set RefundedCoop State_ClaimedCoop
+//@ table getSwapOutReceiverStates entry @C07 RefundedCoop State_SwapOutReceiver_ClaimSwapCoop:Event_ActionSucceeded
+//@ table getSwapOutReceiverStates edge @C07,C18 State_SwapOutReceiver_AwaitClaimInvoicePayment Event_OnCsvPassed State_SwapOutReceiver_ClaimSwapCsv
+//@ table getSwapOutReceiverStates edge @C07,C18 State_WaitCsv Event_OnCsvPassed State_SwapOutReceiver_ClaimSwapCsv
+//@ table getSwapOutReceiverStates edge @C07 State_SwapOutReceiver_ClaimSwapCsv Event_OnRetry State_SwapOutReceiver_ClaimSwapCsv
+//@ table getSwapOutReceiverStates edge @C07,C18 State_SwapOutReceiver_ClaimSwapCoop Event_ActionFailed State_WaitCsv
+//@ table getSwapOutReceiverStates edge @C07,C18 State_SwapOutReceiver_AwaitClaimInvoicePayment Event_OnCancelReceived State_WaitCsv
+//@ table getSwapOutReceiverStates action @C07 State_SwapOutReceiver_ClaimSwapCsv ClaimSwapTransactionWithCsv
+//@ table getSwapOutReceiverStates action @C07 State_WaitCsv AwaitCsvAction
+//@ table getSwapOutReceiverStates action @C07 State_SwapOutReceiver_AwaitClaimInvoicePayment AwaitPaymentOrCsvAction
+
+// C22: retransmission of opening_tx_broadcasted runs only in the state that
+// waits for the taker's reaction; every state the swap can move on to stops the
+// retransmitter first, and the terminal states remove it.
+//@ table getSwapInSenderStates set MovedOn State_WaitCsv State_SwapInSender_ClaimSwapCsv State_SwapInSender_ClaimSwapCoop
+//@ table getSwapInSenderStates allfirst @C22 MovedOn StopSendMessageWithRetryWrapperAction
+//@ table getSwapInSenderStates set AfterAnnounce State_SwapInSender_AwaitClaimPayment State_WaitCsv State_SwapInSender_ClaimSwapCsv State_SwapInSender_ClaimSwapCoop State_ClaimedPreimage State_ClaimedCsv State_ClaimedCoop
+//@ table getSwapInSenderStates closed @C22 AfterAnnounce
+//@ table getSwapInSenderStates action @C22 State_ClaimedPreimage NoOpDoneAction
+//@ table getSwapInSenderStates action @C22 State_ClaimedCsv NoOpDoneAction
+//@ table getSwapInSenderStates action @C22 State_ClaimedCoop NoOpDoneAction
+//@ table getSwapInSenderStates set Announce State_SwapInSender_SendTxBroadcastedMessage
+//@ table getSwapInSenderStates onlyin @C22 SendMessageWithRetryAction Announce
+//@ table getSwapOutReceiverStates set MovedOn State_WaitCsv State_SwapOutReceiver_ClaimSwapCsv State_SwapOutReceiver_ClaimSwapCoop
+//@ table getSwapOutReceiverStates allfirst @C22 MovedOn StopSendMessageWithRetryWrapperAction
+//@ table getSwapOutReceiverStates set AfterAnnounce State_SwapOutReceiver_AwaitClaimInvoicePayment State_WaitCsv State_SwapOutReceiver_ClaimSwapCsv State_SwapOutReceiver_ClaimSwapCoop State_ClaimedPreimage State_ClaimedCsv State_ClaimedCoop
+//@ table getSwapOutReceiverStates closed @C22 AfterAnnounce
+//@ table getSwapOutReceiverStates action @C22 State_ClaimedPreimage NoOpDoneAction
+//@ table getSwapOutReceiverStates action @C22 State_ClaimedCsv NoOpDoneAction
+//@ table getSwapOutReceiverStates action @C22 State_ClaimedCoop NoOpDoneAction
+//@ table getSwapOutReceiverStates set Announce State_SwapOutReceiver_SendTxBroadcastedMessage
+//@ table getSwapOutReceiverStates onlyin @C22 SendMessageWithRetryAction Announce
+
+// C26: a swap that ends in a CSV refund quarantines the peer.
+//@ table getSwapInSenderStates action @C26 State_ClaimedCsv AddSuspiciousPeerAction first
+//@ table getSwapOutReceiverStates action @C26 State_ClaimedCsv AddSuspiciousPeerAction first
+
+// C29: the terminal states of every table are exactly the ones IsFinished recognises.
+//@ table getSwapInSenderStates terminal @C29,C16 State_SwapCanceled State_ClaimedPreimage State_ClaimedCoop State_ClaimedCsv
+//@ table getSwapOutReceiverStates terminal @C29,C16 State_SwapCanceled State_ClaimedPreimage State_ClaimedCoop State_ClaimedCsv
+//@ table getSwapOutSenderStates terminal @C29,C16 State_SwapCanceled State_ClaimedPreimage State_ClaimedCoop
+//@ table getSwapInReceiverStates terminal @C29,C16 State_SwapCanceled State_ClaimedPreimage State_ClaimedCoop
+
+// C16: recovery can always proceed, edges lead to configured states, and a
+// variant decreases along every edge except the declared bounded loops
+// (OnRetry is bounded by the retry counter; the WaitCsv <-> ClaimSwapCoop loop
+// is bounded because a second coop_close is rejected by ApplyToSwapData).
+//@ table getSwapOutSenderStates recoverable @C16,C15
+//@ table getSwapInReceiverStates recoverable @C16,C15
+//@ table getSwapInSenderStates recoverable @C16,C15
+//@ table getSwapOutReceiverStates recoverable @C16,C15
+//@ table getSwapOutSenderStates targets @C16
+//@ table getSwapInReceiverStates targets @C16
+//@ table getSwapInSenderStates targets @C16
+//@ table getSwapOutReceiverStates targets @C16
+//@ table getSwapOutSenderStates rank @C16 Default=13 State_SwapOutSender_CreateSwap=12 State_SwapOutSender_SendRequest=11 State_SwapOutSender_AwaitAgreement=10 State_SwapOutSender_PayFeeInvoice=9 State_SwapOutSender_AwaitTxBroadcastedMessage=8 State_SwapOutSender_AwaitTxConfirmation=7 State_SwapOutSender_ValidateTxAndPayClaimInvoice=6 State_SwapOutSender_ClaimSwap=5 State_SwapOutSender_SendPrivkey=4 State_SwapOutSender_SendCoopClose=3 State_SendCancel=2 State_SwapCanceled=1 State_ClaimedPreimage=1 State_ClaimedCoop=1 loop:State_SwapOutSender_ClaimSwap:Event_OnRetry
+//@ table getSwapInReceiverStates rank @C16 Default=11 State_SwapInReceiver_CreateSwap=10 State_SwapInReceiver_SendAgreement=9 State_SwapInReceiver_AwaitTxBroadcastedMessage=8 State_SwapInReceiver_AwaitTxConfirmation=7 State_SwapInReceiver_ValidateTxAndPayClaimInvoice=6 State_SwapInReceiver_ClaimSwap=5 State_SwapInReceiver_SendPrivkey=4 State_SwapInReceiver_SendCoopClose=3 State_SendCancel=2 State_SwapCanceled=1 State_ClaimedPreimage=1 State_ClaimedCoop=1 loop:State_SwapInReceiver_ClaimSwap:Event_OnRetry
+//@ table getSwapInSenderStates rank @C16 Default=13 State_SwapInSender_CreateSwap=12 State_SwapInSender_SendRequest=11 State_SwapInSender_AwaitAgreement=10 State_SwapInSender_BroadcastOpeningTx=9 State_SwapInSender_SendTxBroadcastedMessage=8 State_SwapInSender_AwaitClaimPayment=7 State_WaitCsv=5 State_SwapInSender_ClaimSwapCoop=4 State_SwapInSender_ClaimSwapCsv=3 State_SendCancel=2 State_SwapCanceled=1 State_ClaimedPreimage=1 State_ClaimedCoop=1 State_ClaimedCsv=1 loop:State_SwapInSender_ClaimSwapCsv:Event_OnRetry loop:State_SwapInSender_ClaimSwapCoop:Event_ActionFailed
+//@ table getSwapOutReceiverStates rank @C16 Default=13 State_SwapOutReceiver_CreateSwap=12 State_SwapOutReceiver_SendFeeInvoice=11 State_SwapOutReceiver_AwaitFeeInvoicePayment=10 State_SwapOutReceiver_BroadcastOpeningTx=9 State_SwapOutReceiver_SendTxBroadcastedMessage=8 State_SwapOutReceiver_AwaitClaimInvoicePayment=7 State_WaitCsv=5 State_SwapOutReceiver_ClaimSwapCoop=4 State_SwapOutReceiver_ClaimSwapCsv=3 State_SendCancel=2 State_SwapCanceled=1 State_ClaimedPreimage=1 State_ClaimedCoop=1 State_ClaimedCsv=1 loop:State_SwapOutReceiver_ClaimSwapCsv:Event_OnRetry loop:State_SwapOutReceiver_ClaimSwapCoop:Event_ActionFailed
+
+// C16/C17: every waiting state accepts the events that end the wait; the
+// negotiation waits accept Event_OnTimeout, route it to State_SendCancel, and
+// fail over on recovery (timers live in memory only) telling the peer.
+//@ table getSwapOutSenderStates edge @C17,C16 State_SwapOutSender_AwaitAgreement Event_OnTimeout State_SendCancel
+//@ table getSwapOutSenderStates failonrecover @C17,C16 State_SwapOutSender_AwaitAgreement true
+//@ table getSwapOutSenderStates edge @C17 State_SwapOutSender_AwaitAgreement Event_ActionFailed State_SendCancel
+//@ table getSwapInSenderStates edge @C17,C16 State_SwapInSender_AwaitAgreement Event_OnTimeout State_SendCancel
+//@ table getSwapInSenderStates failonrecover @C17,C16 State_SwapInSender_AwaitAgreement true
+//@ table getSwapInSenderStates edge @C17,C16 State_SwapInSender_AwaitAgreement Event_ActionFailed State_SendCancel
+//@ table getSwapOutReceiverStates edge @C17,C16 State_SwapOutReceiver_AwaitFeeInvoicePayment Event_OnTimeout State_SendCancel
+//@ table getSwapOutReceiverStates failonrecover @C17,C16 State_SwapOutReceiver_AwaitFeeInvoicePayment true
+//@ table getSwapOutReceiverStates edge @C17,C16 State_SwapOutReceiver_AwaitFeeInvoicePayment Event_ActionFailed State_SendCancel
+//@ table getSwapInReceiverStates edge @C16 State_SwapInReceiver_AwaitTxBroadcastedMessage Event_OnTimeout State_SwapInReceiver_SendPrivkey
+//@ table getSwapOutSenderStates progress @C16 State_SwapOutSender_AwaitTxBroadcastedMessage Event_OnTxOpenedMessage Event_OnCancelReceived Event_ActionFailed
+//@ table getSwapOutSenderStates progress @C16 State_SwapOutSender_AwaitTxConfirmation Event_OnTxConfirmed Event_ActionFailed
+//@ table getSwapInReceiverStates progress @C16 State_SwapInReceiver_AwaitTxConfirmation Event_OnTxConfirmed Event_ActionFailed
+//@ table getSwapInSenderStates progress @C16 State_SwapInSender_AwaitClaimPayment Event_OnClaimInvoicePaid Event_OnCsvPassed
+//@ table getSwapInSenderStates progress @C16 State_WaitCsv Event_OnCsvPassed
+//@ table getSwapOutReceiverStates progress @C16 State_SwapOutReceiver_AwaitClaimInvoicePayment Event_OnClaimInvoicePaid Event_OnCsvPassed
+//@ table getSwapOutReceiverStates progress @C16 State_WaitCsv Event_OnCsvPassed
+
+// C15: states whose action must not run twice after a restart fail over instead.
+//@ table getSwapOutSenderStates failonrecover @C15 State_SwapOutSender_CreateSwap true
+//@ table getSwapOutSenderStates failonrecover @C15 State_SwapOutSender_PayFeeInvoice true
+//@ table getSwapInSenderStates failonrecover @C15 State_SwapInSender_CreateSwap true
+//@ table getSwapInReceiverStates failonrecover @C15 State_SwapInReceiver_CreateSwap true
+//@ table getSwapOutReceiverStates failonrecover @C15 State_SwapOutReceiver_CreateSwap true
+
+// ---------------------------------------------------------------------------
+// FSM layer: state-indexed data invariants and per-state units
+// (entry invariant: holds when the state's action starts; rest invariant:
+// holds while the machine rests in the state). See /verif/DESIGN.md §3.
+// ---------------------------------------------------------------------------
+
+// request messages are only ever applied to a freshly created machine
+// (SwapOut/SwapIn/OnSwap*RequestReceived construct a new FSM and send the
+// request as its first event)
+//@ ctxscope SwapOutRequestMessage Default
+//@ ctxscope SwapInRequestMessage Default
+
+// the service stores the confirmed transaction before it sends Event_OnTxConfirmed
+//@ event Event_OnTxConfirmed havoc OpeningTxHex
+
+// ---- swap-out sender (taker, initiator) ----
+//@ stateunits getSwapOutSenderStates C01 C04 C05 C06 C12 C13 C16 C23
+//@ table getSwapOutSenderStates set Started State_SwapOutSender_CreateSwap State_SwapOutSender_SendRequest State_SwapOutSender_AwaitAgreement State_SwapOutSender_PayFeeInvoice State_SwapOutSender_AwaitTxBroadcastedMessage State_SwapOutSender_AwaitTxConfirmation State_SwapOutSender_ValidateTxAndPayClaimInvoice State_SwapOutSender_ClaimSwap State_SwapOutSender_SendPrivkey State_SwapOutSender_SendCoopClose State_SendCancel State_SwapCanceled State_ClaimedPreimage State_ClaimedCoop
+//@ entryinv getSwapOutSenderStates Started @C01,C04,C12,C13,C16 request: swap.SwapOutRequest != nil && swap.SwapInRequest == nil
+//@ table getSwapOutSenderStates set Agreed State_SwapOutSender_PayFeeInvoice State_SwapOutSender_AwaitTxBroadcastedMessage State_SwapOutSender_AwaitTxConfirmation State_SwapOutSender_ValidateTxAndPayClaimInvoice State_SwapOutSender_ClaimSwap
+//@ entryinv getSwapOutSenderStates Agreed @C01,C04,C12,C16 agreement: swap.SwapOutAgreement != nil
+//@ table getSwapOutSenderStates set HasOpening State_SwapOutSender_AwaitTxConfirmation State_SwapOutSender_ValidateTxAndPayClaimInvoice State_SwapOutSender_ClaimSwap
+//@ entryinv getSwapOutSenderStates HasOpening @C01,C04,C16 opening: swap.OpeningTxBroadcasted != nil
+//@ restinv getSwapOutSenderStates State_SwapOutSender_AwaitTxConfirmation @C04 payreq-cltv: (swap.GetChain() == l_btc_chain && swap.GetProtocolVersion() == 7) ==> (uf("payreqCltv", int64(0), swap.OpeningTxBroadcasted.Payreq) >= 0 && uf("payreqCltv", int64(0), swap.OpeningTxBroadcasted.Payreq) <= 29)
+//@ entryinv getSwapOutSenderStates State_SwapOutSender_ValidateTxAndPayClaimInvoice @C04 payreq-cltv: (swap.GetChain() == l_btc_chain && swap.GetProtocolVersion() == 7) ==> (uf("payreqCltv", int64(0), swap.OpeningTxBroadcasted.Payreq) >= 0 && uf("payreqCltv", int64(0), swap.OpeningTxBroadcasted.Payreq) <= 29)
+//@ entryinv getSwapOutSenderStates Default @C01,C04,C12,C13,C16 fresh: swap.SwapOutRequest == nil && swap.SwapInRequest == nil && swap.SwapOutAgreement == nil && swap.SwapInAgreement == nil && swap.OpeningTxBroadcasted == nil && swap.Role == SWAPROLE_SENDER
+
+// payreq-bound: the stored payment hash is the invoice's, and the invoice pays
+// exactly the claim amount (checked by AwaitTxConfirmationAction, relied on by
+// the pay action; new payments only: legacy liquid swaps only follow a payment)
+//@ restinv getSwapOutSenderStates State_SwapOutSender_AwaitTxConfirmation @C01,C12 payreq-bound: !(swap.GetChain() == l_btc_chain && swap.GetProtocolVersion() != 7) ==> (swap.ClaimPaymentHash == uf("payreqHash", "", swap.OpeningTxBroadcasted.Payreq) && swap.ClaimPaymentHash != "" && uf("payreqMsat", uint64(0), swap.OpeningTxBroadcasted.Payreq) == swap.GetClaimAmount()*1000)
+//@ entryinv getSwapOutSenderStates State_SwapOutSender_ValidateTxAndPayClaimInvoice @C01,C12 payreq-bound: !(swap.GetChain() == l_btc_chain && swap.GetProtocolVersion() != 7) ==> (swap.ClaimPaymentHash == uf("payreqHash", "", swap.OpeningTxBroadcasted.Payreq) && swap.ClaimPaymentHash != "" && uf("payreqMsat", uint64(0), swap.OpeningTxBroadcasted.Payreq) == swap.GetClaimAmount()*1000)
+//@ restinv getSwapOutSenderStates State_SwapOutSender_AwaitTxConfirmation @C05 btc-cltv: swap.GetChain() == btc_chain ==> uf("payreqCltv", int64(0), swap.OpeningTxBroadcasted.Payreq) <= 504
+//@ entryinv getSwapOutSenderStates State_SwapOutSender_ValidateTxAndPayClaimInvoice @C05 btc-cltv: swap.GetChain() == btc_chain ==> uf("payreqCltv", int64(0), swap.OpeningTxBroadcasted.Payreq) <= 504
+// premium accepted only within the limit (CheckPremiumAmount), relied on when paying
+//@ table getSwapOutSenderStates set PremiumChecked State_SwapOutSender_AwaitTxBroadcastedMessage State_SwapOutSender_AwaitTxConfirmation State_SwapOutSender_ValidateTxAndPayClaimInvoice
+//@ entryinv getSwapOutSenderStates PremiumChecked @C12 premium-limit: swap.SwapOutAgreement.Premium <= swap.SwapOutRequest.PremiumLimit
+// C13: anchor durable before the pubkey leaves, frozen afterwards
+//@ table getSwapOutSenderStates set Anchored State_SwapOutSender_SendRequest State_SwapOutSender_AwaitAgreement State_SwapOutSender_PayFeeInvoice State_SwapOutSender_AwaitTxBroadcastedMessage State_SwapOutSender_AwaitTxConfirmation State_SwapOutSender_ValidateTxAndPayClaimInvoice State_SwapOutSender_ClaimSwap State_SwapOutSender_SendPrivkey State_SwapOutSender_SendCoopClose
+//@ entryinv getSwapOutSenderStates Anchored @C13 anchor-durable: (swap.GetChain() == l_btc_chain && swap.GetProtocolVersion() == 7) ==> (swap.StartingBlockHeightSet && ghost.dSet && ghost.dHeight == swap.StartingBlockHeight)
+//@ stepinv getSwapOutSenderStates Anchored @C13 anchor-frozen: (swap.GetChain() == l_btc_chain && swap.GetProtocolVersion() == 7 && old(swap.StartingBlockHeightSet)) ==> (swap.StartingBlockHeightSet && swap.StartingBlockHeight == old(swap.StartingBlockHeight))
+//@ entryinv getSwapOutSenderStates Started @C13 role: swap.Role == SWAPROLE_SENDER
+
+// the pay state is entered only by the confirmation event of the waiting state
+//@ table getSwapOutSenderStates set PayState State_SwapOutSender_ValidateTxAndPayClaimInvoice
+//@ table getSwapOutSenderStates entry @C01 PayState State_SwapOutSender_AwaitTxConfirmation:Event_OnTxConfirmed
+//@ table getSwapOutSenderStates onlyin @C01,C04,C05 ValidateTxAndPayClaimInvoiceAction PayState
+
+// ---- swap-in receiver (taker, responder) ----
+//@ stateunits getSwapInReceiverStates C01 C04 C05 C06 C11 C12 C13 C16 C23
+//@ entryinv getSwapInReceiverStates Default @C01,C04,C11,C12,C13,C16 fresh: swap.SwapOutRequest == nil && swap.SwapInRequest == nil && swap.SwapOutAgreement == nil && swap.SwapInAgreement == nil && swap.OpeningTxBroadcasted == nil && swap.Role == SWAPROLE_RECEIVER
+//@ table getSwapInReceiverStates set Started State_SwapInReceiver_CreateSwap State_SwapInReceiver_SendAgreement State_SwapInReceiver_AwaitTxBroadcastedMessage State_SwapInReceiver_AwaitTxConfirmation State_SwapInReceiver_ValidateTxAndPayClaimInvoice State_SwapInReceiver_ClaimSwap State_SwapInReceiver_SendPrivkey State_SwapInReceiver_SendCoopClose State_ClaimedPreimage State_ClaimedCoop
+//@ entryinv getSwapInReceiverStates Started @C01,C04,C11,C12,C13,C16 request: swap.SwapInRequest != nil && swap.SwapOutRequest == nil
+//@ table getSwapInReceiverStates set HasOpening State_SwapInReceiver_AwaitTxConfirmation State_SwapInReceiver_ValidateTxAndPayClaimInvoice State_SwapInReceiver_ClaimSwap
+//@ entryinv getSwapInReceiverStates HasOpening @C01,C04,C16 opening: swap.OpeningTxBroadcasted != nil
+//@ restinv getSwapInReceiverStates State_SwapInReceiver_AwaitTxConfirmation @C04 payreq-cltv: (swap.GetChain() == l_btc_chain && swap.GetProtocolVersion() == 7) ==> (uf("payreqCltv", int64(0), swap.OpeningTxBroadcasted.Payreq) >= 0 && uf("payreqCltv", int64(0), swap.OpeningTxBroadcasted.Payreq) <= 29)
+//@ entryinv getSwapInReceiverStates State_SwapInReceiver_ValidateTxAndPayClaimInvoice @C04 payreq-cltv: (swap.GetChain() == l_btc_chain && swap.GetProtocolVersion() == 7) ==> (uf("payreqCltv", int64(0), swap.OpeningTxBroadcasted.Payreq) >= 0 && uf("payreqCltv", int64(0), swap.OpeningTxBroadcasted.Payreq) <= 29)
+//@ restinv getSwapInReceiverStates State_SwapInReceiver_AwaitTxConfirmation @C01,C12 payreq-bound: !(swap.GetChain() == l_btc_chain && swap.GetProtocolVersion() != 7) ==> (swap.ClaimPaymentHash == uf("payreqHash", "", swap.OpeningTxBroadcasted.Payreq) && swap.ClaimPaymentHash != "" && uf("payreqMsat", uint64(0), swap.OpeningTxBroadcasted.Payreq) == swap.GetClaimAmount()*1000)
+//@ entryinv getSwapInReceiverStates State_SwapInReceiver_ValidateTxAndPayClaimInvoice @C01,C12 payreq-bound: !(swap.GetChain() == l_btc_chain && swap.GetProtocolVersion() != 7) ==> (swap.ClaimPaymentHash == uf("payreqHash", "", swap.OpeningTxBroadcasted.Payreq) && swap.ClaimPaymentHash != "" && uf("payreqMsat", uint64(0), swap.OpeningTxBroadcasted.Payreq) == swap.GetClaimAmount()*1000)
+//@ restinv getSwapInReceiverStates State_SwapInReceiver_AwaitTxConfirmation @C05 btc-cltv: swap.GetChain() == btc_chain ==> uf("payreqCltv", int64(0), swap.OpeningTxBroadcasted.Payreq) <= 504
+//@ entryinv getSwapInReceiverStates State_SwapInReceiver_ValidateTxAndPayClaimInvoice @C05 btc-cltv: swap.GetChain() == btc_chain ==> uf("payreqCltv", int64(0), swap.OpeningTxBroadcasted.Payreq) <= 504
+//@ table getSwapInReceiverStates set Anchored State_SwapInReceiver_SendAgreement State_SwapInReceiver_AwaitTxBroadcastedMessage State_SwapInReceiver_AwaitTxConfirmation State_SwapInReceiver_ValidateTxAndPayClaimInvoice State_SwapInReceiver_ClaimSwap State_SwapInReceiver_SendPrivkey State_SwapInReceiver_SendCoopClose
+//@ entryinv getSwapInReceiverStates Anchored @C13 anchor-durable: (swap.GetChain() == l_btc_chain && swap.GetProtocolVersion() == 7) ==> (swap.StartingBlockHeightSet && ghost.dSet && ghost.dHeight == swap.StartingBlockHeight)
+//@ stepinv getSwapInReceiverStates Anchored @C13 anchor-frozen: (swap.GetChain() == l_btc_chain && swap.GetProtocolVersion() == 7 && old(swap.StartingBlockHeightSet)) ==> (swap.StartingBlockHeightSet && swap.StartingBlockHeight == old(swap.StartingBlockHeight))
+//@ entryinv getSwapInReceiverStates Started @C13 role: swap.Role == SWAPROLE_RECEIVER
+//@ table getSwapInReceiverStates set PayState State_SwapInReceiver_ValidateTxAndPayClaimInvoice
+//@ table getSwapInReceiverStates entry @C01 PayState State_SwapInReceiver_AwaitTxConfirmation:Event_OnTxConfirmed
+//@ table getSwapInReceiverStates onlyin @C01,C04,C05 ValidateTxAndPayClaimInvoiceAction PayState
+
+// C13: a request / agreement (the messages that carry the taker's swap pubkey)
+// leaves a Liquid protocol-7 taker only with the anchor already durable
+//@ interface Messenger.SendMessage
+//@ requires @C13 anchor-durable: ((messageType == int(messages.MESSAGETYPE_SWAPOUTREQUEST) || messageType == int(messages.MESSAGETYPE_SWAPINAGREEMENT)) && swap.GetChain() == l_btc_chain && swap.GetProtocolVersion() == 7) ==> (swap.StartingBlockHeightSet && ghost.dSet && ghost.dHeight == swap.StartingBlockHeight)
+//@ requires @C09 to-counterparty: peerId == swap.PeerNodeId
+//@ assigns nothing
